@@ -322,8 +322,15 @@ def _explore(unit, cfg, fn, out, stack, budget, timeout_ms, known, notes, truste
             s.set("timeout", 5000)
             for a in c.pc_before_obls() if hasattr(c, "pc_before_obls") else _pc_without_goals(c):
                 s.add(a)
-            if s.check() != z3.unsat:
+            vr = s.check()
+            if vr == z3.unknown:
+                # the incremental core gave up: ask the stand-alone z3 (sat needs no model here)
+                v2, _ = core.z3_cli_check(list(s.assertions()), z3.BoolVal(True), 20000)
+                vr = {"sat": z3.sat, "unsat": z3.unsat}.get(v2, z3.unknown)
+            if vr != z3.unsat:
                 out["vacuity"]["paths_sat"] += 1
+            if vr == z3.unknown:
+                out["vacuity"]["paths_unknown"] = out["vacuity"].get("paths_unknown", 0) + 1
         for cname, cpc in c.covers:
             out["vacuity"].setdefault("covers", 0)
             out["vacuity"].setdefault("covers_unsat", [])
